@@ -140,9 +140,27 @@ def render (p : Parsed) (a : AppScen) (r : Result) : String :=
     base ++ " fl=" ++ (if fl.isEmpty then "-" else joinWith ";" fl) ++ " pub=" ++ (if pubs.isEmpty then "-" else joinWith "," pubs)
   else base
 
+/-- retry scenarios: after a successful start, the nodes marked fail-once (bit 9) or look-up (bit 10) are looked up by name
+    until they are published, at most 4 times each; a fail-once `Init` fails exactly when it has not run before -/
+def retryLookups (p : Parsed) (sc : Scen) (st0 : St) : St :=
+  let marked := p.nodes.filter (fun n => n.flt.testBit 9 || n.flt.testBit 10)
+  marked.foldl (fun st n =>
+    (List.range 4).foldl (fun st _ =>
+      if (st.l1 n.row).isSome then st
+      else
+        let once : Nat → Bool := fun i =>
+          (p.nodes.any (fun m => m.row == i && m.flt.testBit 9)) && !(st.log.contains (M2.Ev.init i))
+        let scK : Scen := { sc with fInit := fun i => sc.fInit i || once i }
+        M2.lookupAfter scK st n.row) st) st0
+
 def handle (line : String) : String :=
   let p := parse line
   let (a, _) := build p
-  render p a (appRun a)
+  let r := appRun a
+  if r.outcome == .ok && p.nodes.any (fun n => n.flt.testBit 9 || n.flt.testBit 10) then
+    -- events are those of the start; fields and published instances are read after the lookups
+    let stEnd := retryLookups p a.sc r.st
+    render p a { r with st := { stEnd with log := r.st.log } }
+  else render p a r
 
 end Driver.Graph
